@@ -4,6 +4,7 @@ import NodisVerif.Proofs.C16Bulk
 import NodisVerif.Proofs.C16Full
 import NodisVerif.Props.C08
 import NodisVerif.Proofs.RespWriterRun
+import NodisVerif.Proofs.RespWriterServe
 /-
   C16 — exactly one well-formed RESP reply per command, in order; pipelines stay in sync.
 
@@ -872,6 +873,119 @@ theorem writer_pipeline_in_sync (st : MState) (cmds : List Cmd) (marker : Cmd) (
   obtain ⟨vs, vm, h1, h2, h3, h4⟩ := pipeline_in_sync_full st cmds marker []
   refine ⟨s, vs, vm, e, hw0, h1, h2, h3, ?_⟩
   rw [hs]
+  have : renderAll (run fullTable { store := st } (cmds ++ [marker])).2.flatten =
+      (run fullTable { store := st } (cmds ++ [marker])).2.flatMap renderAll := by
+    generalize (run fullTable { store := st } (cmds ++ [marker])).2 = xs
+    induction xs with
+    | nil => rfl
+    | cons x xs ih => simp only [List.flatten_cons, List.flatMap_cons, ← ih]; simp [renderAll, List.flatMap_append]
+  rw [this]
+  simpa using h4
+
+/-! ### the writer as the connection loop uses it (redis/server.go handleConn, nodis.go Serve) -/
+
+/-- what `conn.HasError()` feeds into MULTI's error bit: writing the tokens `ts` of a reply raises the flag
+    exactly when one of them is an error token (`toks.any isErr` in Model/Conn.lean `afterHandler`), on
+    top of what the flag was; the tokens' rendering is appended to the pending bytes, nothing is sent -/
+theorem writer_has_error_is_any_err (s : Writer) (h : WriterInv s) (ts : List Tok) :
+    ∃ s', RespWriter.run s (ts.map callOfTok) = .ok s' ∧ WriterInv s' ∧
+      s'.err = (s.err || ts.any Server.isErr) ∧
+      s'.buf.toList.take s'.w = s.buf.toList.take s.w ++ renderAll ts ∧ s'.sink.toList = s.sink.toList := by
+  have := Proofs.RespWriter.run_refines (ts.map callOfTok) s h
+  rw [Proofs.RespWriter.AW.run_tokens] at this
+  obtain ⟨s', e, ha, hi, _⟩ := this
+  exact ⟨s', e, hi, congrArg AW.err ha, congrArg AW.pending ha, congrArg AW.delivered ha⟩
+
+/-- the connection loop (`handler(c, cmd); _ = c.Flush()` for every command) on a connection that does not
+    fail: while command j is being answered the connection has received exactly the complete replies of
+    the commands before it, the buffer holds exactly the reply of command j so far, and `HasError()` at
+    the end of the handler is "this reply contains an error token" — no leftover from earlier commands -/
+theorem serve_loop_has_error (pre : List (List Tok)) (r : List Tok) :
+    ∃ s, RespWriter.run RespWriter.new (serveCalls pre ++ r.map callOfTok) = .ok s ∧
+      s.err = r.any Server.isErr ∧ s.sink.toList = pre.flatMap renderAll ∧ s.buf.toList.take s.w = renderAll r := by
+  have := writer_run_refines (serveCalls pre ++ r.map callOfTok)
+  rw [Proofs.RespWriter.AW.run_append, Proofs.RespWriter.AW.run_serve, Option.bind_some,
+    Proofs.RespWriter.AW.run_tokens] at this
+  obtain ⟨s, e, ha, _⟩ := this
+  refine ⟨s, e, ?_, ?_, ?_⟩
+  · have := congrArg AW.err ha; simp only [abs] at this; rw [this]; cases pre <;> simp
+  · have := congrArg AW.delivered ha; simp only [abs] at this; rw [this]; cases pre <;> simp
+  · have := congrArg AW.pending ha; simp only [abs] at this; rw [this]; cases pre <;> simp
+
+/-- … and after the last Flush everything has been delivered, reply after reply, nothing is pending -/
+theorem serve_loop_delivers (rs : List (List Tok)) (hne : rs ≠ []) :
+    ∃ s, RespWriter.run RespWriter.new (serveCalls rs) = .ok s ∧
+      s.sink.toList = rs.flatMap renderAll ∧ s.w = 0 ∧ s.err = false := by
+  have := writer_run_refines (serveCalls rs)
+  rw [Proofs.RespWriter.AW.run_serve] at this
+  obtain ⟨s, e, ha, hi⟩ := this
+  have hemp : rs.isEmpty = false := by cases rs with | nil => exact absurd rfl hne | cons _ _ => rfl
+  rw [hemp] at ha
+  simp only [Bool.false_eq_true, if_false] at ha
+  refine ⟨s, e, ?_, ?_, congrArg AW.err ha⟩
+  · have := congrArg AW.delivered ha; simp only [abs] at this; rw [this]; simp
+  · have hl := Proofs.RespWriter.pending_length s hi
+    rw [ha] at hl
+    simpa using hl.symm
+
+/-- **end to end with the schedule the server really uses**: any pipeline of any commands from a fresh server
+    on any store, each reply written through the Writer and flushed after its command: the byte stream
+    parses into exactly one value per command, in order, then the marker's; nothing left over -/
+theorem serve_loop_in_sync (st : MState) (cmds : List Cmd) (marker : Cmd) :
+    ∃ (s : Writer) (vs : List Value) (vm : Value),
+      RespWriter.run RespWriter.new (serveCalls (run fullTable { store := st } (cmds ++ [marker])).2) = .ok s ∧
+      s.w = 0 ∧ s.err = false ∧ vs.length = cmds.length ∧
+      (run fullTable { store := st } cmds).2.map toValue = vs.map some ∧
+      toValue (step fullTable (run fullTable { store := st } cmds).1 marker).2 = some vm ∧
+      parseMany (cmds.length + 1) s.sink.toList = some (vs ++ [vm], []) := by
+  have hne : (run fullTable { store := st } (cmds ++ [marker])).2 ≠ [] := by
+    intro h
+    have := run_replies_length fullTable (cmds ++ [marker]) { store := st }
+    rw [h] at this
+    simp at this
+  obtain ⟨s, e, hs, hw, he⟩ := serve_loop_delivers _ hne
+  obtain ⟨vs, vm, h1, h2, h3, h4⟩ := pipeline_in_sync_full st cmds marker []
+  refine ⟨s, vs, vm, e, hw, he, h1, h2, h3, ?_⟩
+  rw [hs]
+  simpa using h4
+
+/-! ### independent of the growth policy: the abstract buffered writer alone
+
+  `writer_refines_spec` is the only place where `buf`, `w` and `grow` occur. What follows holds for every
+  implementation that refines the abstract writer, whatever its buffer management (the correspondence check
+  reports a change of the buffer management alone as `writer-representation-drift`, not as a violation). -/
+
+/-- abstract writer, connection not failing: delivered ++ pending = everything written, in order -/
+theorem buffered_writer_bytes (cs : List Call) (a : AW) (e : AW.run {} cs = some a) (hn : NoFailure cs) :
+    a.delivered ++ a.pending = cs.flatMap written := by
+  have := Proofs.RespWriter.AW.run_content cs {} a e hn
+  simpa using this
+
+/-- abstract writer: after a successful Flush exactly everything written has been delivered, once -/
+theorem buffered_writer_flush_exactly_once (pre : List Call) (a : AW) (hn : NoFailure pre)
+    (e : AW.run {} (pre ++ [.flush none]) = some a) :
+    a.delivered = pre.flatMap written ∧ a.pending = [] ∧ a.err = false := by
+  rw [Proofs.RespWriter.AW.run_append] at e
+  cases h1 : AW.run {} pre with
+  | none => rw [h1] at e; cases e
+  | some a1 =>
+    rw [h1] at e
+    simp only [Option.bind_some, AW.run, AW.step] at e
+    cases e
+    exact ⟨buffered_writer_bytes pre a1 h1 hn, rfl, rfl⟩
+
+/-- abstract writer: the pipeline theorem for any flush schedule -/
+theorem buffered_writer_pipeline_in_sync (st : MState) (cmds : List Cmd) (marker : Cmd) (cs : List Call) (a : AW)
+    (hw : cs.filter isWrite = ((run fullTable { store := st } (cmds ++ [marker])).2.flatten).map callOfTok)
+    (hn : NoFailure cs) (e : AW.run {} (cs ++ [.flush none]) = some a) :
+    ∃ (vs : List Value) (vm : Value), vs.length = cmds.length ∧
+      (run fullTable { store := st } cmds).2.map toValue = vs.map some ∧
+      toValue (step fullTable (run fullTable { store := st } cmds).1 marker).2 = some vm ∧
+      parseMany (cmds.length + 1) a.delivered = some (vs ++ [vm], []) ∧ a.pending = [] := by
+  obtain ⟨hd, hp, _⟩ := buffered_writer_flush_exactly_once cs a hn e
+  obtain ⟨vs, vm, h1, h2, h3, h4⟩ := pipeline_in_sync_full st cmds marker []
+  refine ⟨vs, vm, h1, h2, h3, ?_, hp⟩
+  rw [hd, Proofs.RespWriter.written_filter, hw, Proofs.RespWriter.written_tokens]
   have : renderAll (run fullTable { store := st } (cmds ++ [marker])).2.flatten =
       (run fullTable { store := st } (cmds ++ [marker])).2.flatMap renderAll := by
     generalize (run fullTable { store := st } (cmds ++ [marker])).2 = xs
